@@ -8,7 +8,7 @@ cp evidence/$PID.json /tmp/evidence_$PID.bak 2>/dev/null
 git -C /repo apply "$PATCH" || { echo "PATCH-DOES-NOT-APPLY $PATCH"; exit 3; }
 ./check $PID $TIER > /tmp/seedtest.out 2>&1; rc=$?
 git -C /repo checkout -- .
-python3 tools/extract.py > /dev/null; python3 tools/bodyx.py > /dev/null
+python3 tools/extract.py > /dev/null; python3 tools/bodyx.py > /dev/null; python3 tools/seqbody.py > /dev/null
 cp /tmp/evidence_$PID.bak evidence/$PID.json 2>/dev/null
 grep -a -E "^VIOLATION|obligations|KNOWN" /tmp/seedtest.out | head -5
 rm -rf replays/$PID
